@@ -4,6 +4,7 @@ package vnet
 // statically assigned one.
 
 import (
+	"net"
 	"testing"
 
 	"github.com/pion/logging"
@@ -36,6 +37,34 @@ func TestWitnessRouterAssignsFreeAddress(t *testing.T) {
 					t.Fatalf("WITNESS router handed out %s twice (static %s, then automatic assignment)", ip, static)
 				}
 				seen[ip] = true
+			}
+		}
+	}
+}
+
+// every address a router hands out lies inside its subnet (or attaching fails), also for subnets narrower than /24
+func TestWitnessRouterSubnet(t *testing.T) {
+	for _, cidr := range []string{"10.0.0.0/25", "10.0.0.128/25", "10.0.0.16/28", "10.0.0.0/24"} {
+		_, ipnet, _ := net.ParseCIDR(cidr)
+		r, err := NewRouter(&RouterConfig{CIDR: cidr, LoggerFactory: logging.NewDefaultLoggerFactory()})
+		if err != nil {
+			t.Fatal(err)
+		}
+		for i := 0; i < 260; i++ {
+			n, _ := NewNet(&NetConfig{})
+			if err = r.AddNet(n); err != nil {
+				continue
+			}
+			ifc, _ := n.InterfaceByName("eth0")
+			addrs, _ := ifc.Addrs()
+			for _, a := range addrs {
+				ip, _, perr := net.ParseCIDR(a.String())
+				if perr != nil {
+					continue
+				}
+				if !ipnet.Contains(ip) {
+					t.Fatalf("WITNESS router %s attached NIC #%d with %s, outside its subnet, without an error", cidr, i, ip)
+				}
 			}
 		}
 	}
